@@ -99,7 +99,7 @@ theorem nord_messageGetFd (env : PEnv) (ms : MsgSt) (part : Option Msg) (dobody 
   simp only [bind_eq, pure_eq, call_bind]
   repeat' (first | exact nord_writefd _ | exact nord_writeAll _ _ _ | exact nord_messageWriteP _ _ | nord_step)
 
-theorem nord_execP (fdin : Option Handle) : Calls NotOpenRd (execP fdin) := by
+theorem nord_execP (argv : List Bytes) (fdin : Option Handle) : Calls NotOpenRd (execP argv fdin) := by
   unfold execP
   simp only [bind_eq, pure_eq, call_bind]
   repeat' nord_step
@@ -614,7 +614,7 @@ theorem lin_execOne (env : PEnv) (mh : Match) (st : ExecSt) {w : World}
       | none => exact ⟨hg1, rfl⟩
       | some fd =>
         dsimp only
-        refine wp_bind_mono (lg_harmless (harmless_execP fd) (nord_execP fd) hg1) ?_
+        refine wp_bind_mono (lg_harmless (harmless_execP _ fd) (nord_execP _ fd) hg1) ?_
         intro rc w2 hg2
         cases fd with
         | none => exact ⟨hg2, rfl⟩
